@@ -2,7 +2,7 @@
    (Model/Variants.v): possible keys are numbered in row-major order of the
    Variants axes; indexInPossibleKeys and possibleKeyAt are mutually inverse
    (up to "first occurrence" when an axis lists a value twice). *)
-From Coq Require Import Lia ZifyN ZifyNat ZifyBool.
+From Coq Require Import Lia ZifyN ZifyNat ZifyBool Permutation.
 From WP Require Import Base.Prelude Model.StructHdr Model.Variants Proofs.BaseLemmas.
 From WP Require Proofs.SHRoundtrip.
 Open Scope N_scope.
@@ -715,6 +715,75 @@ Section Order.
     destruct C as [pl [Pl [_ [_ [_ Nth]]]]].
     destruct (placements_cover _ _ _ Pl _ _ _ Hin) as [i Hi].
     apply Nth in Hi. eapply nth_error_In. exact Hi.
+  Qed.
+  (* ---- entries with exactly one Variant-Key each: the result is a rearrangement -------- *)
+  Definition single_keyed (es : list ventry) : Prop :=
+    Forall (fun e => exists k, parse_list_of_string_lists (snd (fst e)) = Ok [k]) es.
+
+  Lemma placements_single (v : variants) (es : list ventry) : forall pl,
+    single_keyed es -> placements v es = Some pl -> map snd pl = map snd es.
+  Proof.
+    induction es as [|[[vv vk] x] t IH]; intros pl S Pl; cbn [placements] in Pl.
+    - inversion Pl; reflexivity.
+    - apply Forall_cons_iff in S. destruct S as [[k Pk] S]. cbn [fst snd] in Pk. rewrite Pk in Pl.
+      cbn [key_indices] in Pl. destruct (index_in_possible_keys v k) as [i|]; [|discriminate].
+      destruct (placements v t) as [r|] eqn:Pt; [|discriminate]. inversion Pl; subst pl.
+      cbn [map app snd]. f_equal. apply IH; [exact S|reflexivity].
+  Qed.
+
+  Definition indexed (l : list A) : list (N * A) := combine (map N.of_nat (seq 0 (List.length l))) l.
+
+  Lemma indexed_in (l : list A) (i : N) (x : A) :
+    In (i, x) (indexed l) <-> nth_error l (N.to_nat i) = Some x.
+  Proof.
+    unfold indexed.
+    assert (G : forall s, In (i, x) (combine (map N.of_nat (seq s (List.length l))) l)
+                          <-> (s <= N.to_nat i)%nat /\ nth_error l (N.to_nat i - s) = Some x).
+    { induction l as [|y t IH]; intros s; cbn [List.length seq map combine In].
+      - split; [contradiction|]. intros [_ H]. destruct (N.to_nat i - s)%nat; discriminate.
+      - rewrite IH. split.
+        + intros [E|[H1 H2]].
+          * inversion E; subst. rewrite Nat2N.id, Nat.sub_diag. split; [lia|reflexivity].
+          * split; [lia|]. replace (N.to_nat i - s)%nat with (S (N.to_nat i - S s)) by lia. exact H2.
+        + intros [H1 H2]. destruct (Nat.eq_dec (N.to_nat i) s) as [E|NE].
+          * left. rewrite E, Nat.sub_diag in H2. cbn in H2. inversion H2. f_equal. lia.
+          * right. split; [lia|]. replace (N.to_nat i - s)%nat with (S (N.to_nat i - S s)) in H2 by lia.
+            exact H2. }
+    rewrite G. rewrite Nat.sub_0_r. split; [intros [_ H]; exact H|intros H; split; [lia|exact H]].
+  Qed.
+
+  Lemma indexed_snd (l : list A) : map snd (indexed l) = l.
+  Proof.
+    unfold indexed. generalize 0%nat. induction l as [|y t IH]; intros s; [reflexivity|].
+    cbn [List.length seq map combine snd]. rewrite IH. reflexivity.
+  Qed.
+
+  Lemma indexed_fst_nodup (l : list A) : NoDup (map fst (indexed l)).
+  Proof.
+    unfold indexed. assert (E : map fst (combine (map N.of_nat (seq 0 (List.length l))) l)
+                                = map N.of_nat (seq 0 (List.length l))).
+    { generalize 0%nat. induction l as [|y t IH]; intros s; [reflexivity|].
+      cbn [List.length seq map combine fst]. rewrite IH. reflexivity. }
+    rewrite E. apply FinFun.Injective_map_NoDup; [intros a c H; lia|apply seq_NoDup].
+  Qed.
+
+  Lemma NoDup_of_fst {B} (l : list (N * B)) : NoDup (map fst l) -> NoDup l.
+  Proof.
+    induction l as [|p t IH]; cbn [map]; intros H; [constructor|].
+    apply NoDup_cons_iff in H. destruct H as [H1 H2]. constructor; [|apply IH; exact H2].
+    intros Hin. apply H1. apply in_map. exact Hin.
+  Qed.
+
+  Theorem entries_order_perm (es : list ventry) (l : list A) :
+    entries_in_possible_key_order es = Ok l -> single_keyed es -> Permutation l (map snd es).
+  Proof.
+    intros H S. destruct (entries_order_spec _ _ H) as [v0 [vk0 [x0 [t [v [n [_ [_ [_ [_ [_ C]]]]]]]]]]].
+    destruct C as [pl [Pl [ND [_ [_ Nth]]]]].
+    rewrite <- (placements_single v es pl S Pl), <- (indexed_snd l) at 1.
+    apply Permutation_map. apply NoDup_Permutation.
+    - apply NoDup_of_fst, indexed_fst_nodup.
+    - apply NoDup_of_fst. exact ND.
+    - intros [i x]. rewrite indexed_in. apply Nth.
   Qed.
 End Order.
 
